@@ -73,6 +73,33 @@ CLAIMED.update({
         ref='4/C15'),
 })
 
+CLAIMED.update({
+    'C09': dict(
+        text='Bounded model checking of the text round trip that if/elseif/while/not/alias share (utils::eval::parse -> parser::parse_text -> '
+             'bind_command_arguments -> the command), executed through the real not command with a recording command: outside the open known-finding '
+             'classes every argument value reaches the wrapped command unchanged (same count, same strings); each open class is re-asked and printed as '
+             'KNOWN-FINDING only while the solver still finds it and it replays natively. A call-graph check on the current MIR ties the other wrappers to the same path.',
+        note='Bounds: quick 1 value <= 2 chars (all Unicode) + keyword-looking first value with a second value <= 1 char; thorough 1x3, 2x1, keyword+2. '
+             'Six open known-finding classes (line break, #, binding syntax, double quote, trailing Unicode white space, leading =): genuine, recorded, not repaired. ' + TRUST,
+        ref='4/C09'),
+    'C12': dict(
+        text='Bounded model checking, one step per command from an arbitrary handle table: three handles whose stored value has a symbolic kind (all 13 '
+             'StateValue variants) and symbolic contents (including values that are themselves handle keys); the real run of 21 Rust-implemented collection '
+             'commands + release is executed with symbolic handle / index / value arguments. Obligations: wrong-kind, unknown or released handle -> error (or '
+             'false) and every collection unchanged (the restore-on-mismatch arms of mutate_list/map/set); on a match exactly the specified effect; verbatim values.',
+        note='Bounds: <= 3 live handles, collections <= 2 elements, values <= 2 (quick) / 3 (thorough) chars. Script-implemented collection commands n/a; '
+             'handle distinctness rests on the RNG (stubbed as an arbitrary non-live key). ' + TRUST,
+        ref='4/C12'),
+    'C16': dict(
+        text='Bounded model checking of the run functions of length, indexof, last_indexof, contains, starts_with, ends_with, equals, is_empty, trim*, '
+             'substring (all arities, symbolic numeric arguments) and range with a byte-accurate string model (UTF-8 widths per char), plus the cross-command '
+             'relation substring(s,0,indexof(s,t)) + t is a prefix of s. Out-of-domain input must give the error result; every panic site is an obligation.',
+        note='Bounds: arguments <= 6 (quick) / 9 (thorough) chars over all Unicode, numeric arguments <= 3 chars, range span <= 4. For one-line wrappers around '
+             'std the model and the oracle coincide: plumbing and unit consistency are what is checked. n/a parts: calc, less_than/greater_than (f64), '
+             'uppercase/lowercase, concat (script), replace/split. ' + TRUST,
+        ref='4/C16'),
+})
+
 NOT_APPLICABLE = {
     'C17': 'round-trips live in third-party crates (base64, serde_json, java-properties, std fmt/from_str_radix) that are not in the encoded MIR; '
            'modelling them by specification would make decode(encode(x))=x true by construction (DESIGN.md section 5)',
